@@ -21,7 +21,7 @@ CHECKS = {
 
 CHECKS["C19"] = dict(
     technique="static analysis: whole-package global-write scan (who-may-write inventory), lock-coverage lint of PEP 562 hooks, publish-after-build reachability on a hand-built CFG, import-introspection inventory of shared instances",
-    text="The complete set of functions that write process-wide state (module globals, class attributes, globals()) is computed from the source and must equal the reviewed inventory; every lazy import/publish is under a module-level RLock; no object is mutated after being stored into shared state on any CFG path; cache builders are effect-free; no shared Parser/Generator/Tokenizer instance exists. No module- or class-level instance of a package class that keeps per-call state on itself may exist, and no module in the import closure of a locked lazy hook's target modules may resolve a lazy attribute through that hook (it would take the package lock and importlib's module lock in the opposite order to the hook — a first-use deadlock). This is the publication/lock discipline that makes first-use races benign; schedules are not executed. No public entry point sets a process-global switch (closed list of setters with a positive control), and memoised factories never return worker objects or instances of stateful classes.",
+    text="The complete set of functions that write process-wide state (module globals, class attributes, globals()) is computed from the source and must equal the reviewed inventory; every lazy import/publish is under a module-level RLock; no object is mutated after being stored into shared state on any CFG path; cache builders are effect-free; no shared Parser/Generator/Tokenizer instance exists. No module- or class-level instance of a package class that keeps per-call state on itself may exist, and no module in the import closure of a locked lazy hook's target modules may resolve a lazy attribute through that hook (it would take the package lock and importlib's module lock in the opposite order to the hook — a first-use deadlock). This is the publication/lock discipline that makes first-use races benign; schedules are not executed. No public entry point sets a process-global switch (closed list of setters with a positive control), and memoised factories never return worker objects or instances of stateful classes. A class-body comprehension over another generator's TRANSFORMS (pruned in place by the dialect metaclass) iterates a snapshot or runs after the owning dialect was imported.",
     ref="DESIGN.md section 4 / C19",
 )
 
@@ -39,7 +39,7 @@ CHECKS["C08"] = dict(
 
 CHECKS["C20"] = dict(
     technique="static analysis: partition typestate of the matching sets (co-location + dominance of guards) and exhaustive CFG path enumeration of the edit-script loop body",
-    text="Every matching_set.add is co-located with the removal of both ids from the unmatched sets, guarded by a both-unmatched proof and by the same-type test (also through the candidate heap); every acyclic path through the per-pair loop body of _generate_edit_script appends exactly one Keep or Update (none only under delta_only) and the two unmatched loops append exactly one Remove/Insert per id; hashes cached on uncopied inputs are evicted in finally and no tree mutator is called by the distiller. These are the mechanisms behind 'each node accounted for exactly once' and 'inputs untouched'; 'delta empty iff equal' depends on run-time similarity scores and is not decided. The distiller's per-call attributes are rebound at the start of diff(), and originals and their copies are listed by the same traversal before they are zipped positionally.",
+    text="Every matching_set.add is co-located with the removal of both ids from the unmatched sets, guarded by a both-unmatched proof and by the same-type test (also through the candidate heap); every acyclic path through the per-pair loop body of _generate_edit_script appends exactly one Keep or Update (none only under delta_only) and the two unmatched loops append exactly one Remove/Insert per id; hashes cached on uncopied inputs are evicted in finally and no tree mutator is called by the distiller. These are the mechanisms behind 'each node accounted for exactly once' and 'inputs untouched'; 'delta empty iff equal' depends on run-time similarity scores and is not decided. The distiller's per-call attributes are rebound at the start of diff(), and originals and their copies are listed by the same traversal before they are zipped positionally. Heap entries that carry nodes have a unique element before the first node (nodes are never ordered), and Keep / Update / Move pair nodes only through the matching.",
     ref="DESIGN.md section 4 / C20",
 )
 
@@ -63,18 +63,18 @@ CHECKS["C13"] = dict(
 
 CHECKS["C10"] = dict(
     technique="static analysis: typestate of the straight-line qualify() pipeline (stage order, threading, guards, defaults) and error-family resolution of every raise in the qualification modules",
-    text="A thin, exact necessary condition: qualify() must run normalize_identifiers, qualify_tables, [isolate_table_selects], qualify_columns, quote_identifiers, validate in that order on one threaded variable, each optional stage behind its own flag with the documented defaults and the resolved dialect/schema passed on; every explicit raise in the qualification modules must be a SqlglotError subclass. Completeness, idempotence, star order and case rules are run-time valued and are NOT decided by this check. Scope.branch must give the inner scope's CTE definitions precedence over inherited ones (closed set of merge forms; an unrecognised form is reported as not decided). Case folding consults the dialect's ASCII-only flag, no id() of a str is used as identity, and every Dialect-level setting overridden by some dialect is read somewhere.",
+    text="A thin, exact necessary condition: qualify() must run normalize_identifiers, qualify_tables, [isolate_table_selects], qualify_columns, quote_identifiers, validate in that order on one threaded variable, each optional stage behind its own flag with the documented defaults and the resolved dialect/schema passed on; every explicit raise in the qualification modules must be a SqlglotError subclass. Completeness, idempotence, star order and case rules are run-time valued and are NOT decided by this check. Scope.branch must give the inner scope's CTE definitions precedence over inherited ones (closed set of merge forms; an unrecognised form is reported as not decided). Case folding consults the dialect's ASCII-only flag, no id() of a str is used as identity, and every Dialect-level setting overridden by some dialect is read somewhere. Free-standing db / catalog identifiers are marked as table parts before they are normalised.",
     ref="DESIGN.md section 4 / C10",
 )
 CHECKS["C07"] = dict(
     technique="static analysis: pairing/post-domination of the line-break sentinel, injectivity of the substitution, flow confinement of comment text to maybe_comment, block-comment-only emission lint",
-    text="Decides the two explicit clauses of C07 that are structural: pretty output cannot contain the sentinel and plain output cannot be altered by it (single guarded insertion/removal pair, removal before every return, overrides delegate), and comments=False emits no comment text / comments cannot swallow SQL (comment text flows only into maybe_comment, which short-circuits on self.comments; only block comments, sanitised on both markers). In the emitters of text-bearing leaves (literal, identifier, raw/unicode/byte/national string) the text wrapped in quote delimiters must have passed _replace_line_breaks on every path (must-dataflow), so pretty printing never pads the continuation lines of a literal. The separators Generator.indent splits on must all be hidden by _replace_line_breaks (regex AST of the separator compared with the replaced constants). One genuine defect (sentinel collision with user text under pretty) is recorded as a known finding. Whether pretty/pad/indent/leading_comma/max_text_width affect whitespace only is semantic and not decided. (Typed) no f-string in generator code interpolates an expression node itself instead of its rendered SQL.",
+    text="Decides the two explicit clauses of C07 that are structural: pretty output cannot contain the sentinel and plain output cannot be altered by it (single guarded insertion/removal pair, removal before every return, overrides delegate), and comments=False emits no comment text / comments cannot swallow SQL (comment text flows only into maybe_comment, which short-circuits on self.comments; only block comments, sanitised on both markers). In the emitters of text-bearing leaves (literal, identifier, raw/unicode/byte/national string) the text wrapped in quote delimiters must have passed _replace_line_breaks on every path (must-dataflow), so pretty printing never pads the continuation lines of a literal. The separators Generator.indent splits on must all be hidden by _replace_line_breaks (regex AST of the separator compared with the replaced constants). One genuine defect (sentinel collision with user text under pretty) is recorded as a known finding. Whether pretty/pad/indent/leading_comma/max_text_width affect whitespace only is semantic and not decided. (Typed) no f-string in generator code interpolates an expression node itself instead of its rendered SQL. No decision is taken on text rendered with the current options (comparison with constants / settings) and rendered SQL is not placed inside string literals (one known finding: T-SQL sp_rename); the end of rendered SQL is cut only on comment-free renders. This found and led to fixes for comment-dependent time-format rewriting and DuckDB's unbalanced ordered-set aggregates.",
     ref="DESIGN.md section 4 / C07",
 )
 
 CHECKS["C04"] = dict(
     technique="static analysis: exhaustive writer/reader table agreement over all dialect classes (import-introspected tables vs. predicates mirroring the tokenizer's branches, anchored on those branches), emitter-funnel and comment-emission lints",
-    text="For each of the 35 dialect classes the generator's escaping tables are checked against the tokenizer's acceptance conditions: the escaped quote is read back as a quote, every reader escape is neutralised by the writer, every writer sequence decodes, identifier escape characters are escaped and decoded, overrides of the emitters delegate, and comments are block comments sanitised on both markers. These relations are necessary for 'a value can never terminate its own quoting'; the rule R7 pins the reader branches the predicates mirror so a tokenizer change cannot silently invalidate them. Byte/raw/national/heredoc literals and the full for-all-strings round trip are not decided. No generator f-string may place raw node text (.name/.this/.text()/args.get) between hand-written single quotes: what is interpolated inside an opened quote must be escaped (escape_str / explicit quote replacement), rendered SQL or a constant.",
+    text="For each of the 35 dialect classes the generator's escaping tables are checked against the tokenizer's acceptance conditions: the escaped quote is read back as a quote, every reader escape is neutralised by the writer, every writer sequence decodes, identifier escape characters are escaped and decoded, overrides of the emitters delegate, and comments are block comments sanitised on both markers. These relations are necessary for 'a value can never terminate its own quoting'; the rule R7 pins the reader branches the predicates mirror so a tokenizer change cannot silently invalidate them. Byte/raw/national/heredoc literals and the full for-all-strings round trip are not decided. No generator f-string may place raw node text (.name/.this/.text()/args.get) between hand-written single quotes: what is interpolated inside an opened quote must be escaped (escape_str / explicit quote replacement), rendered SQL or a constant. Identifiers rebuilt from another node's alias text keep its quoted flag; the builders' safe-bare-word regex admits only characters that no tokenizer treats specially and is anchored at the very end.",
     ref="DESIGN.md section 4 / C04",
 )
 
